@@ -6,6 +6,7 @@ use std::panic::{catch_unwind, AssertUnwindSafe};
 
 mod deblock_cases;
 mod h263_cases;
+mod reader_cases;
 mod unit_cases;
 mod util;
 mod yuv_cases;
@@ -33,6 +34,7 @@ fn run_line(line: &str) -> String {
         "H" => h263_cases::header(&rest),
         "P" => h263_cases::history(&rest, false),
         "PX" => h263_cases::history(&rest, true),
+        "R" => reader_cases::script(&rest),
         "PP" => h263_cases::pipeline(&rest),
         "S" => h263_cases::schedule(&rest),
         _ => format!("bad-op {}", kind),
